@@ -275,9 +275,12 @@ class Renderer(object):
                     pt = dict((d_["exn"], d_["t"]) for d_ in self.p.get("exnp", []))[h["exn"]]
                     return "{ %s: %s := (pv$E); %s }" % (h["ps"][0], tname(pt), self.ex(h["body"]))
                 return self.ex(h["body"])
-            hs = "; ".join("E has %s => %s" % (getattr(self, "exn_has", "%s") % h["exn"], hbody(h)) for h in x["hs"])
+            named = [h for h in x["hs"] if h["exn"] != "*"]
+            rest = [h for h in x["hs"] if h["exn"] == "*"]
+            hs = "".join("E has %s => %s; " % (getattr(self, "exn_has", "%s") % h["exn"], hbody(h)) for h in named)
             fin = "" if x["fin"].get("e") == "none" else " finally %s" % self.ex(x["fin"])
-            return "(try %s catch E in { %s; true => throw E; never }%s)" % (self.ex(x["body"]), hs, fin)
+            other = self.ex(rest[0]["body"]) if rest else "throw E"      # the catch-all clause, or passing the exception on
+            return "(try %s catch E in { %strue => %s; never }%s)" % (self.ex(x["body"]), hs, other, fin)
         if e == "error":
             return "error %s" % esc(x.get("msg", "halt"))
         if e == "where":
